@@ -159,6 +159,8 @@ class TabularMarkovDecisionProcess(MarkovDecisionProcess):
             for a in self._cached_actions(s):
                 ai = self.action_list.index(a)
                 for ns, nsp in self._cached_next_state_dist(s, a).items():
+                    if nsp == 0.:
+                        continue
                     nsi = self.state_list.index(ns)
                     tf[si, ai, nsi] = nsp
         tf.setflags(write=False)
@@ -196,9 +198,9 @@ class TabularMarkovDecisionProcess(MarkovDecisionProcess):
             for a in self._cached_actions(s):
                 ai = self.action_list.index(a)
                 for ns, p in self._cached_next_state_dist(s, a).items():
-                    nsi = self.state_list.index(ns)
                     if p == 0.:
                         continue
+                    nsi = self.state_list.index(ns)
                     rf[si, ai, nsi] = self.reward(s, a, ns)
         rf.setflags(write=False)
         return rf
